@@ -25,6 +25,7 @@ RULE = ("(a) fed sequences of 2..14 (objective, violation) pairs drawn from a "
         "canonical pattern of the (f, v) sequence (a) / spec signature + "
         "clause (b)")
 RULE += ("  Also (b'): non-default feasibility tolerances (0, 1e-14, 1e-3) on problems whose solution lies on a curved constraint approached from outside; knife-edge judged with each point's own rounding slack.")
+RULE += (' Family e2e_soc: early-stopped runs rich in second-order corrections; the returned point is judged with its TRUE values and must be a point that was evaluated.')
 ASSUMPTIONS = [
     "only the clauses the statement fixes are demanded (S1 feasible-first "
     "least objective, S2 least merit + not dominated + NaN never preferred, "
